@@ -13,8 +13,8 @@ from vlib import report, symx, world
 from checks import common
 
 PROP = 'C13'
-GROUPS = ('g1', 'g2')
-LOCS = ('l1', 'l2')
+GROUPS = ('g1', 'G2')          # names that differ in the case of their first letter:
+LOCS = ('l1', 'L0')            # the directory orders names as strings, case-sensitively
 PLACES = [(g, l) for g in GROUPS for l in LOCS]
 MAX_AGE = 300
 
@@ -385,7 +385,7 @@ def run(tier, seed):
     t0 = time.time()
     rng = random.Random(seed)
     items = [{'kind': 'stepping', 'n': n, 'budget_s': 30 if tier == 'quick' else 300} for n in range(0, 5 if tier == 'quick' else 6)]
-    names3 = ('a', 'b', 'c')
+    names3 = ('a', 'B', 'c')
     snaps3 = list(snapshots(names3))
     if tier == 'quick':
         for pre in snaps3:
@@ -394,7 +394,7 @@ def run(tier, seed):
     else:
         for pre in snaps3:
             items.append({'kind': 'directory', 'names': names3, 'pre': pre, 'posts': snaps3})
-        names4 = ('a', 'b', 'c', 'd')
+        names4 = ('a', 'B', 'c', 'D')
         snaps4 = list(snapshots(names4))
         for pre in snaps4:
             items.append({'kind': 'directory', 'names': names4, 'pre': pre, 'posts': rng.sample(snaps4, 100)})
